@@ -35,8 +35,9 @@ struct State {
 	VC acq_pending[MAXT]; VC rel_fence[MAXT]; bool has_rel_fence[MAXT] = {};
 };
 VCLOCK_NOTSAN inline State &st() { static State s; return s; }
+VCLOCK_NOTSAN inline void reset_tables();
 VCLOCK_NOTSAN inline int me() { int t = dsched::tid + 1; return t < 0 || t >= MAXT ? 0 : t; }
-VCLOCK_NOTSAN inline void reset() { auto &s = st(); for(int i = 0; i < MAXT; i++) { s.thread[i].clear(); s.thread[i].c[i] = 1; s.acq_pending[i].clear(); s.rel_fence[i].clear(); s.has_rel_fence[i] = false; } s.acquire_without_release = 0; }
+VCLOCK_NOTSAN inline void reset() { auto &s = st(); for(int i = 0; i < MAXT; i++) { s.thread[i].clear(); s.thread[i].c[i] = 1; s.acq_pending[i].clear(); s.rel_fence[i].clear(); s.has_rel_fence[i] = false; } s.acquire_without_release = 0; reset_tables(); }
 // thread creation / join edges of one dsched::run
 VCLOCK_NOTSAN inline void fork_all(int n) { auto &s = st(); for(int k = 1; k <= n && k < MAXT; k++) s.thread[k].join(s.thread[0]); s.thread[0].c[0]++; }
 VCLOCK_NOTSAN inline void join_all(int n) { auto &s = st(); for(int k = 1; k <= n && k < MAXT; k++) { s.thread[0].join(s.thread[k]); s.thread[k].c[k]++; } }
@@ -99,4 +100,27 @@ inline void mirror_fence(std::memory_order mo) {
 	if(Rel::acq(mo) && __tsan_acquire) for(int i = 0; i < f.n; i++) __tsan_acquire((void *)f.pend[i]);
 	if(Rel::rel(mo)) f.rel_fence = true;
 }
+
+// Clocks for atomics that are plain objects accessed through the __atomic_* builtins (no wrapper object to carry a Rel): a table keyed
+// by address. Slots are claimed per case (generation counter instead of clearing 8192 slots for every case).
+struct RelSlot { const void *key; uint64_t gen; Rel rel; };
+constexpr size_t NSLOT = 8192;
+inline RelSlot g_rels[NSLOT];
+inline uint64_t g_rel_gen = 1;
+VCLOCK_NOTSAN inline Rel &rel_of(const volatile void *p) {
+	size_t h = (size_t)((((uintptr_t)p >> 2) * 0x9E3779B97F4A7C15ull) >> 51);     // 13 bits
+	for(size_t d = 0; d < NSLOT; d++) {
+		RelSlot &r = g_rels[(h + d) & (NSLOT - 1)];
+		if(r.gen != g_rel_gen) { r.key = (const void *)p; r.gen = g_rel_gen; r.rel = Rel(); return r.rel; }
+		if(r.key == (const void *)p) return r.rel;
+	}
+	return g_rels[h].rel;
+}
+// The order in which the threads performed their successful read-modify-write operations (spin_conc: the ticket of a lock() call is
+// drawn by its first successful read-modify-write on the lock, whatever operation the implementation uses for it).
+inline uint64_t g_rmw_seq = 0;
+inline thread_local uint64_t draw_seq = 0;
+VCLOCK_NOTSAN inline void note_rmw() { uint64_t n = ++g_rmw_seq; if(!draw_seq) draw_seq = n; }
+VCLOCK_NOTSAN inline void reset_tables() { g_rel_gen++; g_rmw_seq = 0; }
 } // namespace vclock
+
